@@ -266,3 +266,35 @@ def run_C19(ctx):
 
 
 RUNNERS["C19"] = run_C19
+
+
+# ------------------------------------------------------------------ C15 (JSON)
+def _s(text):
+    return '[t |-> "str", b |-> <<%s>>, s |-> "%s"]' % (", ".join(str(b) for b in text.encode()), text)
+
+
+JSON_TOKENS = ('{[t |-> "["], [t |-> "]"], [t |-> "{"], [t |-> "}"], [t |-> ","], [t |-> ":"], [t |-> "null"], [t |-> "true"], '
+               '[t |-> "int", x |-> 1], [t |-> "real", n |-> 5, d |-> 2], %s, %s, [t |-> "garbage", text |-> "tru"]}' % (_s("a"), _s("b")))
+JSON_TOKENS_MARKERS = ('{[t |-> "["], [t |-> "]"], [t |-> ","], [t |-> "int", x |-> 1], %s}'
+                       % ", ".join(_s(x) for x in ("nan", "nano", "inf", "info", "-inf", "-infra", "a")))
+
+
+def run_C15(ctx):
+    ctx.build("opt")
+    q = ctx.quick()
+    kw = dict(init="JInit", next_="JNext", view="JView", action_constraints=["JEmit"],
+              translate=("replay", "steps_json"), judge_fn=("replay", "judge_json"))
+    ctx.tlc_phase("all-token-sequences", "JsonIO", dict(TokAlphabet=JSON_TOKENS, MaxToks=str(5 if q else 6), EmitOn="TRUE"),
+                  invariants=["NoPartial", "DocsOnlyWhenClosed"], **kw)
+    ctx.tlc_phase("marker-strings", "JsonIO", dict(TokAlphabet=JSON_TOKENS_MARKERS, MaxToks=str(5 if q else 6), EmitOn="TRUE"),
+                  invariants=["NoPartial"], **kw)
+    kw["view"] = None
+    ctx.tlc_phase("long-texts-simulate", "JsonIO", dict(TokAlphabet=JSON_TOKENS, MaxToks="14", EmitOn="TRUE"),
+                  invariants=["NoPartial"], simulate="num=%d" % (3000 if q else 100000), depth=15, **kw)
+    return ctx.finish(rule="one case = one JSON text (a token sequence rendered with a seeded choice of whitespace, string/file input and "
+                           "read-buffer size 1..64k); all token sequences up to the bound, i.e. every truncation and single-token corruption",
+                      assumptions=["the character-level lexer/number formatter is the rapidjson stand-in (rapidjson is absent from the repository)",
+                                   "objects with duplicate keys are outside the property's quantifier (Unspec)"])
+
+
+RUNNERS["C15"] = run_C15
